@@ -50,6 +50,9 @@ def handle (s : Sexp) : Sexp :=
   | .list [.atom "layout", c, t] =>
     match parseCfg c, parseTy t with
     | .ok cfg, .ok ty =>
+      match ty.defErr cfg with
+      | some e => errSexp e
+      | none =>
       match ty with
       | .struct al fs =>
         match structLayout cfg al fs with
